@@ -218,12 +218,27 @@ def _defines_outside_use(stmt: ast.AST, use: ast.AST, name: str) -> bool:
     return _defines(stmt, name)
 
 
+def clone(node):
+    """A copy of an expression / statement made of its syntax only: the fields of the grammar
+    and the positions.  (copy.deepcopy would follow the `_parent` links the program index
+    adds and copy the whole module for every expression.)"""
+    if isinstance(node, list):
+        return [clone(x) for x in node]
+    if not isinstance(node, ast.AST):
+        return node
+    new = node.__class__()
+    for name, val in ast.iter_fields(node):
+        setattr(new, name, clone(val))
+    for a in ("lineno", "col_offset", "end_lineno", "end_col_offset"):
+        if hasattr(node, a):
+            setattr(new, a, getattr(node, a))
+    return new
+
+
 def expanded(func: ast.AST, expr: ast.AST, depth: int = 4) -> ast.AST:
     """A copy of expr in which every local that has exactly one, plain, definition in func is
     replaced by (a copy of) the expression it was bound to -- what the expression says once
     single-definition temporaries are read through."""
-    import copy
-
     defs = definitions(func)
 
     class R(ast.NodeTransformer):
@@ -242,12 +257,12 @@ def expanded(func: ast.AST, expr: ast.AST, depth: int = 4) -> ast.AST:
                         if isinstance(val, (ast.Tuple, ast.List)) and i < len(val.elts) and not any(isinstance(e, ast.Starred) for e in val.elts):
                             v = val.elts[i]
                         elif isinstance(val, (ast.Name, ast.Attribute, ast.Subscript)):
-                            v = ast.Subscript(value=copy.deepcopy(val), slice=ast.Constant(value=i), ctx=ast.Load())
+                            v = ast.Subscript(value=clone(val), slice=ast.Constant(value=i), ctx=ast.Load())
                 if v is not None and not any(isinstance(x, ast.Name) and x.id == node.id for x in ast.walk(v)):
-                    return R(self.d - 1).visit(copy.deepcopy(v))
+                    return R(self.d - 1).visit(clone(v))
             return node
 
-    return R(depth).visit(copy.deepcopy(expr))
+    return R(depth).visit(clone(expr))
 
 
 def sorted_tuple_of(func: ast.AST, ret: ast.Return):
